@@ -419,9 +419,9 @@ func vCallMethod(w Writer, m int, u uint8) (err error, typ Type, isValue bool) {
 	case 11:
 		return w.WriteString("s"), StringType, true
 	case 12:
-		return w.WriteClob([]byte{u}), ClobType, true
+		return w.WriteClob(vC12Lob(u)), ClobType, true
 	case 13:
-		return w.WriteBlob([]byte{u}), BlobType, true
+		return w.WriteBlob(vC12Lob(u)), BlobType, true
 	case 14:
 		return w.BeginList(), ListType, true
 	case 15:
@@ -439,6 +439,18 @@ func vCallMethod(w Writer, m int, u uint8) (err error, typ Type, isValue bool) {
 	}
 }
 
+// vC12Lob: a one-byte payload, or (param lob=n) an n-byte payload whose first byte is symbolic (64 bytes and more take
+// a separate path in the binary Writer).
+func vC12Lob(u uint8) []byte {
+	n := vparam("lob", 1)
+	bs := make([]byte, n)
+	for i := range bs {
+		bs[i] = byte(i)
+	}
+	bs[0] = u
+	return bs
+}
+
 func H_C12_methods() {
 	config := vparam("config", 2)
 	prefix := vparam("prefix", 0)
@@ -451,9 +463,46 @@ func H_C12_methods() {
 		vassert(w.EndList() != nil, "EndList at top level is refused")
 	case 2:
 		vassert(w.BeginStruct() == nil, "BeginStruct succeeds")
+	case 3:
+		vassume(m <= 16) // a value method
+		a := "a"
+		vassert(w.Annotation(SymbolToken{Text: &a, LocalSID: SymbolIDUnknown}) == nil, "Annotation succeeds")
 	}
 	err, typ, isValue := vCallMethod(w, m, u)
 	switch prefix {
+	case 3:
+		// an annotated value of every kind, followed by a sibling: the annotation wraps exactly the one value
+		vassert(err == nil && isValue, "the annotated value is written")
+		switch m {
+		case 14:
+			vassert(w.EndList() == nil, "matching End succeeds")
+		case 15:
+			vassert(w.EndSexp() == nil, "matching End succeeds")
+		case 16:
+			vassert(w.EndStruct() == nil, "matching End succeeds")
+		}
+		vassert(w.WriteInt(7) == nil, "a sibling value follows")
+		vassert(w.Finish() == nil, "Finish succeeds")
+		r := NewReaderBytes(out.buf)
+		vassert(r.Next() && r.Type() == typ, "the stream holds the annotated value")
+		as, aerr := r.Annotations()
+		vassert(aerr == nil && len(as) == 1, "with its one annotation")
+		if m == 12 || m == 13 {
+			bs, berr := r.ByteValue()
+			vassert(berr == nil && vSameBytes(bs, vC12Lob(u)), "and its payload")
+		}
+		vassert(r.Next() && r.Type() == IntType, "then the sibling")
+		as, aerr = r.Annotations()
+		vassert(aerr == nil && len(as) == 0, "which carries no annotation")
+		vassert(!r.Next() && r.Err() == nil, "and nothing else")
+		if config >= 2 {
+			d, ok := refBinDecode(out.buf, nil)
+			vassert(ok && !d.undef, "binary output well-formed and self-contained under the independent decoder")
+			us := d.user()
+			vassert(len(us) >= 2 && us[0].typ == typ && len(us[0].ann) == 1 && us[0].depth == 0, "the independent decoder finds the annotated value")
+			vassert(us[len(us)-1].typ == IntType && us[len(us)-1].depth == 0 && len(us[len(us)-1].ann) == 0, "and the sibling at top level")
+		}
+		vcover("ok")
 	case 0:
 		if m == 19 || m == 20 {
 			vassert(err != nil, "FieldName / EndList at top level is refused")
